@@ -33,6 +33,8 @@ func init() { register("C12", runC12) }
 //         D<u>                      DELETE /api/v1/webhook?url=
 //         N<o0><o1><o2><o3>         WebhooksService.Notify(event) with the outcome of the call to url i:
 //                                   k=200 c=201 n=404 s=503 t=transport error b=unreadable body (status 200)
+//         X<0..3>                   a request the endpoint must reject (4xx) without touching anything: POST without url,
+//                                   POST with an unparsable body, GET without url, DELETE without url
 //         Z                         restart (Stack.Reopen: close the SQLite file, rebuild repositories + services)
 // observable: for every op  "<response>|<POSTs, sorted>|<GET u0>,<GET u1>,<GET u2>,<GET u3>", joined by " ; ",
 //   followed by " ; DB " + the raw webhooks table in rowid order.
@@ -376,6 +378,7 @@ func c12Exec(c *Ctx, input string, seq int) (obs string) {
 		_ = os.RemoveAll(filepath.Join(c.Out, "tmp", fmt.Sprintf("c12-%d", seq)))
 	}()
 	var steps []string
+	prevA, prevE := [c12NU]int{-1, -1, -1, -1}, [c12NU]int{}
 	for i, op := range toks[1:] {
 		idx := i + 1
 		step := func() (res string) {
@@ -447,6 +450,25 @@ func c12Exec(c *Ctx, input string, seq int) (obs string) {
 				w.mu.Unlock()
 				sort.Strings(ps) // the order of the calls is not part of the property
 				posts = strings.Join(ps, ",")
+			case len(op) == 2 && op[0] == 'X':
+				var code int
+				switch op[1] {
+				case '0': // no url in the body
+					code, _ = r.s.Do("POST", "/api/v1/webhook", `{"requiredAuth":{"type":"bearer","token":"tok9"}}`, nil)
+				case '1': // unparsable body
+					code, _ = r.s.Do("POST", "/api/v1/webhook", `{"url": "`+w.urlOf(0), nil)
+				case '2': // query without url
+					code, _ = r.s.Do("GET", "/api/v1/webhook", "", nil)
+				case '3': // delete without url
+					code, _ = r.s.Do("DELETE", "/api/v1/webhook", "", nil)
+				default:
+					return "BAD-OP||"
+				}
+				if code >= 400 && code < 500 {
+					resp = "rej"
+				} else {
+					resp = fmt.Sprintf("%d:unexpected", code)
+				}
 			case op == "Z":
 				s2, err := r.s.Reopen()
 				if err != nil {
@@ -463,7 +485,33 @@ func c12Exec(c *Ctx, input string, seq int) (obs string) {
 			steps = append(steps, "DEAD||")
 			continue
 		}
-		steps = append(steps, step())
+		st := step()
+		steps = append(steps, st)
+		// input-distribution histogram: which transitions the sequence really exercised
+		if parts := strings.Split(st, "|"); len(parts) == 3 {
+			for j, g := range strings.Split(parts[2], ",") {
+				if j >= c12NU {
+					break
+				}
+				var e, a int
+				if _, err := fmt.Sscanf(g, "e%da%d", &e, &a); err != nil {
+					prevA[j], prevE[j] = -1, 0
+					continue
+				}
+				isN := strings.HasPrefix(op, "N")
+				switch {
+				case isN && prevA[j] == 1 && a == 0:
+					c.Count(fmt.Sprintf("event:deactivated mt=%d at-count=%d", mt, e))
+				case isN && prevA[j] == 1 && a == 1 && prevE[j] > 0 && e == 0:
+					c.Count("event:reset-by-200")
+				case isN && prevA[j] == 1 && a == 1 && e > prevE[j]:
+					c.Count(fmt.Sprintf("event:failure-below-max count=%d", e))
+				case !isN && prevA[j] == 0 && a == 1:
+					c.Count("event:reactivated-by-re-register")
+				}
+				prevA[j], prevE[j] = a, e
+			}
+		}
 	}
 	db := "DEAD"
 	if r.s != nil {
@@ -492,6 +540,8 @@ func c12GenOps(c *Ctx, n int, mt int) []string {
 			ops = append(ops, fmt.Sprintf("D%d", rng.Intn(c12NU)))
 		case x < 36:
 			ops = append(ops, "Z")
+		case x < 39:
+			ops = append(ops, fmt.Sprintf("X%d", rng.Intn(4)))
 		default:
 			b := []byte("N")
 			for i := 0; i < c12NU; i++ {
